@@ -469,13 +469,13 @@ def run(rep, tier, seed):
                 jobs.append((name, sd, [a], depth))
     tn = tops = 0
     fails = []
-    for n, ops, fl in pmap(_twin_work, jobs):
+    for n, ops, fl in dyn.pmap_w('twin', _twin_work, jobs):
         tn += n
         tops += ops
         fails.extend(fl)
     djobs = [(name, sd) for name in ([n for n, _ in twin_cfg] if tier == 'quick' else all_names) for sd in twin_seeds]
     dn = dops = 0
-    for n, ops, fl in pmap(_directed_work, djobs):
+    for n, ops, fl in dyn.pmap_w('directed', _directed_work, djobs):
         dn += n
         dops += ops
         fails.extend(fl)
@@ -501,7 +501,7 @@ def run(rep, tier, seed):
         for lo in range(32):
             ijobs.append((name, seeds[0], noise, acts_of[name], lo, 32))
     inn = iops = 0
-    for n, ops, fl in pmap(_inter_work, ijobs, fresh=True):
+    for n, ops, fl in dyn.pmap_w('inter', _inter_work, ijobs):
         inn += n
         iops += ops
         fails.extend(fl)
@@ -535,7 +535,7 @@ def run(rep, tier, seed):
     rpts = [(n, p) for n, p in RSX.parameter_points(tier) if p['shape'][0] * p['shape'][1] <= (49 if tier == 'quick' else 81)]
     rjobs = [(n, p, sd) for n, p in rpts for sd in (seeds[:2] if tier == 'quick' else seeds)]
     rn = 0
-    for n, fl in pmap(_reset_debug_work, [rjobs[i::64] for i in range(64)]):
+    for n, fl in dyn.pmap_w('reset_debug', _reset_debug_work, [rjobs[i::64] for i in range(64)]):
         rn += n
         fails.extend(fl)
     hn += rn
@@ -590,3 +590,6 @@ def run(rep, tier, seed):
         rule='case = one action sequence (twin/debug/tripwire run), one interleaving, one (reset function, colour set, seed) over all '
         'iteration orders, or one trajectory compared across interpreter processes; all distinct',
     )
+
+
+WORKERS = {'twin': _twin_work, 'directed': _directed_work, 'inter': _inter_work, 'reset_debug': _reset_debug_work}
